@@ -1,9 +1,224 @@
+(* C10/Properties.v — the property theorems only.  Each is closed by [exact] of a lemma from
+   Proofs.v and followed by Print Assumptions.
+
+   Reading guide.  [run v cs (init_pair cs) es] is the pair of nodes after the event history
+   [es] (any interleaving of starts, heartbeat sends / deliveries in any order / losses,
+   one-sided peer-loss detections, interface notifications, local and remote switchover
+   halves) under configuration [cs]; [v] selects current or repaired behaviour for each of
+   the three recorded defects (Model.v).  Theorems with a hypothesis [fix_xx v = true] hold
+   for the repaired behaviour of that defect only; the matching [_refuted] example shows the
+   current code ([Defective]) violating the same statement.  Theorems without such a
+   hypothesis hold for every variant, in particular for the code as it is today. *)
 From OV Require Import Common.Base C10.Model C10.Proofs.
 Local Open Scope Z_scope.
 
+(* ---- election is deterministic (a function) and antisymmetric ---- *)
 Theorem C10_election_antisym : forall ca cb na nb,
   c_id ca <> c_id cb ->
   n_pprio na = n_eff nb -> n_pprio nb = n_eff na ->
   wins ca na (c_id cb) = negb (wins cb nb (c_id ca)).
 Proof. exact wins_antisym. Qed.
 Print Assumptions C10_election_antisym.
+
+Theorem C10_election_exactly_one : forall ca cb na nb,
+  c_id ca <> c_id cb -> n_st na = Ready -> n_st nb = Ready ->
+  n_pprio na = n_eff nb -> n_pprio nb = n_eff na ->
+  let sa := n_st (fst (elect ca na (c_id cb))) in
+  let sb := n_st (fst (elect cb nb (c_id ca))) in
+  (sa = Active /\ sb = Standby) \/ (sa = Standby /\ sb = Active).
+Proof. exact elect_exactly_one. Qed.
+Print Assumptions C10_election_exactly_one.
+
+(* finite-abstraction lemma: what handlePeerHeartbeat does depends on priorities and node ids
+   only through the outcome of winsElection *)
+Theorem C10_heartbeat_depends_on_election_only : forall v c n m,
+  fst (handle_hb v c n m) =
+  mkNode (hb_core v (c_preempt c) (negb (n_pknown n)) (n_st n) (h_st m)
+                  (wins_raw (c_id c) (n_eff n) (h_prio m) (h_id m)))
+         (n_eff n) (h_prio m) (Some (h_st m)) true (n_cnt n) (n_down n).
+Proof. exact handle_hb_spec. Qed.
+Print Assumptions C10_heartbeat_depends_on_election_only.
+
+(* a fresh exchange in the model is exactly: send, deliver request (reply enqueued), deliver reply *)
+Theorem C10_exchange_is_three_events : forall v cs w s,
+  q_a s = [] -> q_b s = [] ->
+  let s' := run v cs s [ESend w; EDeliver (other w) 0; EDeliver w 0] in
+  (p_a s', p_b s') = xchg v cs w (p_a s, p_b s) /\ q_a s' = [] /\ q_b s' = [].
+Proof. exact xchg_is_events. Qed.
+Print Assumptions C10_exchange_is_three_events.
+
+(* READY is never visible between two events, STANDBY_ALONE implies "peer unknown" *)
+Theorem C10_reachable_well_formed : forall v cs es w,
+  let n := node_of w (run v cs (init_pair cs) es) in
+  n_st n <> Ready /\ (n_st n <> Init -> n_ok n = true).
+Proof. intros v cs es w; split; [apply ready_is_transient | apply run_started_ok]. Qed.
+Print Assumptions C10_reachable_well_formed.
+
+(* ---- a standby never promotes itself ---- *)
+(* After ANY history, if a node that is STANDBY or STANDBY_ALONE is active after one more event,
+   that event is: a switchover request on that node (forced, when STANDBY_ALONE); a down
+   notification for one of its tracked interfaces while STANDBY_ALONE; its own peer-loss
+   detection while STANDBY with a non-zero interface down count; or a heartbeat from the peer.
+   Holds for every variant. *)
+Theorem C10_no_self_promotion : forall v cs es e w,
+  let s := run v cs (init_pair cs) es in
+  let st := n_st (node_of w s) in
+  (st = Standby \/ st = StandbyAlone) ->
+  is_active (n_st (node_of w (fst (step v cs s e)))) = true ->
+  match e with
+  | ESwLocal w' f => w' = w /\ (st = StandbyAlone -> f = true)
+  | ESwRemote w' => w' = w /\ st = Standby
+  | EIf w' k d => w' = w /\ d = true /\ tracked (cfg_of w cs) k = true /\ st = StandbyAlone
+  | EPeerLost w' => w' = w /\ st = Standby /\ 0 < n_cnt (node_of w s)
+  | EDeliver w' i => w' = w /\ queue_to w s <> []
+  | _ => False
+  end.
+Proof. exact no_self_promotion_run. Qed.
+Print Assumptions C10_no_self_promotion.
+
+(* ... and with the interface-count repair the down count is the number of tracked interfaces
+   that the notifications seen so far say are down, so a STANDBY that loses its peer becomes
+   STANDBY_ALONE unless such an interface exists *)
+Theorem C10_standby_peer_lost : forall v cs es w,
+  fix_if v = true -> cfg_small (cfg_of w cs) ->
+  let s := run v cs (init_pair cs) es in
+  n_st (node_of w s) = Standby ->
+  n_st (node_of w (fst (step v cs s (EPeerLost w)))) =
+  if 0 <? spec_cnt (cfg_of w cs) w es then ActiveSolo else StandbyAlone.
+Proof. exact standby_peer_lost_spec. Qed.
+Print Assumptions C10_standby_peer_lost.
+
+Definition cs_track : cfgs := (mkCfg 1 100 false 50 2, mkCfg 2 200 false 50 2).
+Definition to_standby_a : list ev := [EStart A; EStart B; ESend A; EDeliver B 0; EDeliver A 0].
+(* current code: down, deleted, up for ONE interface leave a phantom count; the STANDBY node
+   then promotes itself on peer loss although no tracked interface is down *)
+Example C10_standby_peer_lost_refuted :
+  let es := to_standby_a ++ [EIf A 0 true; EIf A 0 true; EIf A 0 false] in
+  let s := run Defective cs_track (init_pair cs_track) es in
+  cfg_small (fst cs_track) /\ n_st (p_a s) = Standby /\ spec_cnt (fst cs_track) A es = 0 /\
+  n_st (p_a (fst (step Defective cs_track s (EPeerLost A)))) = ActiveSolo.
+Proof. vm_compute. repeat split; intros; discriminate. Qed.
+Print Assumptions C10_standby_peer_lost_refuted.
+
+(* ---- dual active resolves within one heartbeat exchange ---- *)
+Theorem C10_dual_active_resolves : forall v cs a b,
+  fix_fc v = true -> c_id (fst cs) <> c_id (snd cs) ->
+  is_active (n_st a) = true -> is_active (n_st b) = true ->
+  pair_one_active (xchg v cs A (a, b)) = true /\
+  pair_one_active (xchg v cs B (a, b)) = true /\
+  pair_one_active (xchg_crossed v cs (a, b)) = true.
+Proof. exact dual_active_resolves. Qed.
+Print Assumptions C10_dual_active_resolves.
+
+(* every variant, the current code included: two exchanges always suffice *)
+Theorem C10_dual_active_resolves_in_two : forall v cs a b w1 w2,
+  c_id (fst cs) <> c_id (snd cs) ->
+  is_active (n_st a) = true -> is_active (n_st b) = true ->
+  pair_one_active (xchgs v cs [w1; w2] (a, b)) = true.
+Proof. exact dual_active_resolves_two. Qed.
+Print Assumptions C10_dual_active_resolves_in_two.
+
+Definition cs_plain : cfgs := (mkCfg 1 100 false 0 0, mkCfg 2 200 false 0 0).
+(* current code: A forced out of STANDBY_ALONE while B is ACTIVE_SOLO; a complete exchange
+   initiated by B leaves both ACTIVE *)
+Example C10_dual_active_resolves_refuted :
+  let es := to_standby_a ++ [EPeerLost A; EPeerLost B; ESwLocal A true] in
+  let s := run Defective cs_plain (init_pair cs_plain) es in
+  is_active (n_st (p_a s)) = true /\ is_active (n_st (p_b s)) = true /\
+  pair_one_active (xchg Defective cs_plain B (p_a s, p_b s)) = false.
+Proof. vm_compute. repeat split. Qed.
+Print Assumptions C10_dual_active_resolves_refuted.
+
+(* ---- the pair does not settle without an active node ---- *)
+(* with the dual-standby repair: after any history that has started both nodes, ANY three fresh
+   heartbeat exchanges leave exactly one active node, and further exchanges change neither state *)
+Theorem C10_no_stable_headless : forall v cs es w1 w2 w3,
+  fix_hb v = true -> c_id (fst cs) <> c_id (snd cs) ->
+  let s := run v cs (init_pair cs) es in
+  n_st (p_a s) <> Init -> n_st (p_b s) <> Init ->
+  let r := xchgs v cs [w1; w2; w3] (p_a s, p_b s) in
+  pair_one_active r = true /\ absn (xchg v cs A r) = absn r /\ absn (xchg v cs B r) = absn r.
+Proof. exact converges_run. Qed.
+Print Assumptions C10_no_stable_headless.
+
+(* the same for every well-formed pair, reachable or not *)
+Theorem C10_no_stable_headless_all_states : forall v cs a b w1 w2 w3,
+  fix_hb v = true -> c_id (fst cs) <> c_id (snd cs) -> n_ok a = true -> n_ok b = true ->
+  let r := xchgs v cs [w1; w2; w3] (a, b) in
+  pair_one_active r = true /\ absn (xchg v cs A r) = absn r /\ absn (xchg v cs B r) = absn r.
+Proof. exact converges. Qed.
+Print Assumptions C10_no_stable_headless_all_states.
+
+(* every fix-point of the fresh exchanges (both directions) between nodes in contact has
+   exactly one active node *)
+Theorem C10_fixpoint_has_active : forall v cs a b,
+  fix_hb v = true -> c_id (fst cs) <> c_id (snd cs) ->
+  n_ok a = true -> n_ok b = true -> n_pknown a = true -> n_pknown b = true ->
+  (forall w, n_st (fst (xchg v cs w (a, b))) = n_st a /\ n_st (snd (xchg v cs w (a, b))) = n_st b) ->
+  pair_one_active (a, b) = true.
+Proof. exact fixpoint_has_active. Qed.
+Print Assumptions C10_fixpoint_has_active.
+
+Definition cs_design : cfgs := (mkCfg 1 200 false 50 3, mkCfg 2 100 false 50 3).
+(* current code (DESIGN.md section 6): priorities 200/100, no preempt, the active node is
+   decremented to 50, loses its peer one-sidedly, re-elects and loses: both STANDBY, in contact,
+   not moved by exchanges in either direction *)
+Example C10_no_stable_headless_refuted :
+  let es := to_standby_a ++ [EIf A 0 true; EIf A 1 true; EIf A 2 true; EPeerLost A;
+                             ESend B; EDeliver A 0; EDeliver B 0] in
+  let s := run Defective cs_design (init_pair cs_design) es in
+  let a := p_a s in let b := p_b s in
+  n_ok a = true /\ n_ok b = true /\ n_pknown a = true /\ n_pknown b = true /\
+  n_st a = Standby /\ n_st b = Standby /\ n_eff a = 50 /\
+  absn (xchg Defective cs_design A (a, b)) = absn (a, b) /\
+  absn (xchg Defective cs_design B (a, b)) = absn (a, b) /\
+  absn (xchgs Defective cs_design [A; B; A; B; A; B] (a, b)) = absn (a, b).
+Proof. vm_compute. repeat split. Qed.
+Print Assumptions C10_no_stable_headless_refuted.
+
+(* ---- effective priority ---- *)
+(* with the interface-count repair, after ANY history the effective priority is the base
+   priority minus the decrement for every tracked interface whose last notification was
+   down/deleted (floored at 0); [spec_eff] is computed from the event history alone *)
+Theorem C10_effective_priority : forall v cs w es,
+  fix_if v = true -> cfg_small (cfg_of w cs) ->
+  n_eff (node_of w (run v cs (init_pair cs) es)) = spec_eff (cfg_of w cs) w es.
+Proof. exact effective_priority. Qed.
+Print Assumptions C10_effective_priority.
+
+Example C10_effective_priority_refuted :
+  let es := [EIf A 0 true; EIf A 0 true] in
+  cfg_small (fst cs_design) /\
+  n_eff (p_a (run Defective cs_design (init_pair cs_design) es)) = 100 /\
+  spec_eff (fst cs_design) A es = 150.
+Proof. vm_compute. repeat split; intros; discriminate. Qed.
+Print Assumptions C10_effective_priority_refuted.
+
+(* ---- non-vacuity ---- *)
+Example C10_nonvacuous :
+  (* antisymmetry: equal priorities, decided by node id *)
+  (let a := mkNode Ready 100 100 None true 0 [] in
+   c_id (fst cs_plain) <> c_id (snd cs_plain) /\ n_pprio a = n_eff a /\
+   wins (fst cs_plain) a 2 = true /\ wins (snd cs_plain) a 1 = false) /\
+  (* repaired behaviour on the three defect witnesses *)
+  (let es := to_standby_a ++ [EIf A 0 true; EIf A 1 true; EIf A 2 true; EPeerLost A;
+                              ESend B; EDeliver A 0] in
+   let s := run Repaired cs_design (init_pair cs_design) es in
+   n_st (p_a s) = Standby /\ n_st (p_b s) = Standby /\ n_st (p_a s) <> Init /\ n_st (p_b s) <> Init /\
+   a_states (absn (xchgs Repaired cs_design [A; A; A] (p_a s, p_b s))) = (Standby, Active)) /\
+  (let es := to_standby_a ++ [EPeerLost A; EPeerLost B; ESwLocal A true] in
+   let s := run Repaired cs_plain (init_pair cs_plain) es in
+   is_active (n_st (p_a s)) = true /\ is_active (n_st (p_b s)) = true /\
+   a_states (absn (xchg Repaired cs_plain B (p_a s, p_b s))) = (Standby, Active)) /\
+  (let es := [EIf A 0 true; EIf A 0 true; EIf A 1 true; EIf A 0 false; EIf A 7 true] in
+   n_eff (p_a (run Repaired cs_design (init_pair cs_design) es)) = 150 /\ spec_eff (fst cs_design) A es = 150) /\
+  (* a fix-point with one active node; promotions with each admissible cause *)
+  (let s := run Repaired cs_plain (init_pair cs_plain) to_standby_a in
+   n_ok (p_a s) = true /\ n_pknown (p_a s) = true /\ n_pknown (p_b s) = true /\
+   absn (xchg Repaired cs_plain A (p_a s, p_b s)) = absn (p_a s, p_b s) /\
+   absn (p_a s, p_b s) = (Standby, true, Active, true) /\
+   n_st (p_a (fst (step Repaired cs_plain s (EPeerLost A)))) = StandbyAlone /\
+   n_st (p_a (run Repaired cs_plain s [EPeerLost A; ESwLocal A false])) = StandbyAlone /\
+   n_st (p_a (run Repaired cs_plain s [EPeerLost A; ESwLocal A true])) = Active).
+Proof. vm_compute. repeat split; try reflexivity; intros; discriminate. Qed.
+Print Assumptions C10_nonvacuous.
